@@ -123,6 +123,41 @@ def family(ctx, top, kinds=("coroutine", "closure"), include_top=False):
     return ([top] + out) if include_top else out
 
 
+def owner_roots(ctx, g):
+    """The top-level functions a body belongs to. For a closure / async block: the functions in whose (inlined) body
+    it is created, transitively - so a closure written inside an extracted helper belongs to the helper's callers."""
+    F = ctx.F
+    idx = F.__dict__.get("_creators")
+    if idx is None:
+        idx = {}
+        for f in F.fns:
+            for blk in f.blocks:
+                for s in blk["s"]:
+                    if s["k"] == "assign" and s["r"]["k"] == "agg" and s["r"].get("ak") in ("closure", "coroutine", "coroutine_closure"):
+                        idx.setdefault(s["r"].get("def"), set()).add(f)
+        F._creators = idx
+    out = set()
+    seen = set()
+    st = [g]
+    while st:
+        x = st.pop()
+        if id(x) in seen:
+            continue
+        seen.add(id(x))
+        if x.kind in ("fn", "method"):
+            out.add(x)
+            continue
+        cs = idx.get(x.path, ())
+        if not cs:
+            r = x
+            while r.parent is not None:
+                r = r.parent
+            out.add(r)
+        for c in cs:
+            st.append(c)
+    return out
+
+
 def value_terms(f, T, t, depth=3):
     """The term t plus, for every multiply-assigned local it mentions, the terms of that local's non-error
     definitions (Ok(..)/Some(..)/plain values; not `?` propagation or Err(..)) - transitively. Lets a rule look through
@@ -417,9 +452,88 @@ def _split_within_len(fn, T, bb, recv, mid):
     return "split point is min(.., len of the slice, ..): never beyond the end" if bounded(mid) else None
 
 
+def _loop_guarded_index(fn, T, bb, recv, idx):
+    """`while i < v.len() { .. v[i] .. }` with a counter i that changes elsewhere in the loop: between the true edge of
+    the bounds test and the access nothing is assigned, mutably borrowed or called (except pure reads)."""
+    if recv is None or idx is None or idx[0] != "var":
+        return None
+    if any(x[0] == "var" and x != idx and len(T.defs.get(x[1], ())) >= 2 for x in subterms(recv)):
+        return None
+    if any(x[0] in ("icall", "await") or (x[0] == "call" and x[1] not in _PURE_CALLS and not _pure_workspace_fn(x[1])) for x in subterms(recv)):
+        return None
+    cfg = _plain_cfg(fn)
+
+    def is_len(t):
+        return t[0] == "call" and t[1].rsplit("::", 1)[-1] == "len" and len(t[2]) == 1 and t[2][0] == recv
+    for sb in range(len(fn.blocks)):
+        si = T.switch_info(sb)
+        if si is None:
+            continue
+        scrut, edges = si
+        neg = False
+        while scrut[0] == "un" and scrut[1] == "Not":
+            neg = not neg
+            scrut = scrut[2]
+        p = _cmp_parts(scrut)
+        if p is None:
+            continue
+        op, x, y = p
+        want = None
+        if x == idx and is_len(y):
+            want = {"Lt": True, "Ge": False}.get(op)
+        elif is_len(x) and y == idx:
+            want = {"Gt": True, "Le": False}.get(op)
+        if want is None:
+            continue
+        if neg:
+            want = not want
+        for tgt, labs in edges.items():
+            if labs != [want] or len(cfg.pred[tgt]) != 1 or not cfg.dominates(tgt, bb):
+                continue
+            # blocks on a path tgt -> bb that does not re-enter the test
+            fwd = set()
+            st = [tgt]
+            while st:
+                b = st.pop()
+                if b in fwd or b == sb:
+                    continue
+                fwd.add(b)
+                if b != bb:
+                    st += [z for _, z in cfg.succ[b]]
+            back = {bb}
+            st = [bb]
+            while st:
+                b = st.pop()
+                for _, z in cfg.pred[b]:
+                    if z in fwd and z not in back:
+                        back.add(z)
+                        st.append(z)
+            region = fwd & back
+            clean = True
+            for b in region:
+                blk = fn.blocks[b]
+                for stt in blk["s"]:
+                    if stt["k"] != "assign":
+                        continue
+                    if stt["p"]["l"] == idx[1]:
+                        clean = False
+                    r = stt["r"]
+                    if r["k"] in ("ref", "rawptr") and (r.get("bk") == "mut" or r.get("mut")):
+                        clean = False
+                    if stt["p"].get("pr") and any(e == "*" or (isinstance(e, dict) and "n" in e) for e in stt["p"]["pr"]):
+                        clean = False        # a store through a reference / into a field
+                if b != bb and blk["t"]["k"] == "call":
+                    ct = T.call_term(blk["t"])
+                    if ct[0] != "call" or (ct[1] not in _PURE_CALLS and not _pure_workspace_fn(ct[1])):
+                        clean = False
+            if clean:
+                return "index guarded by the loop's bounds test (i < len) with nothing assigned, borrowed mutably or called between test and access"
+    return None
+
+
 def _guarded_index(fn, T, bb, recv, idx):
     """v[i] dominated by i < v.len() (or v.len() > i)"""
-    g = _range_loop_index(fn, T, recv, idx) or _split_within_len(fn, T, bb, recv, idx)
+    g = _range_loop_index(fn, T, recv, idx) or _split_within_len(fn, T, bb, recv, idx) or _loop_guarded_index(fn, T, bb, recv, idx)
     if g:
         return g
     if recv is None or idx is None or not _stable(T, recv, idx):
